@@ -96,3 +96,49 @@ func CorpusC15() []PairCase {
 	urlB := mk(&Schema{Type: []string{"integer"}}, "", other("integer"))
 	return []PairCase{{"nested-required", nestedA, nestedB}, {"two-codes-two-methods", respA, respB}, {"two-urls", urlA, urlB}}
 }
+
+// CorpusC14: fixed pairs for the both-orders sweep — shapes the random edits reach rarely: an allOf member that refers to a
+// definition on ONE side only, with that definition itself changed (description / property type / new property), the
+// definition not otherwise the root of a compared parameter or response.
+func CorpusC14() []PairCase {
+	i64s := func() *Schema { return &Schema{Type: []string{"integer"}, Format: "int64"} }
+	str := func() *Schema { return &Schema{Type: []string{"string"}} }
+	mk := func(pet *Schema, entity *Schema, inBody bool) *Spec {
+		var sp *Spec
+		if inBody {
+			sp = getOp([]*Param{{Name: "body", In: "body", Required: true, Chain: []*Simple{{}}, Schema: &Schema{Ref: "Pet"}}})
+		} else {
+			sp = getOp(nil, &Response{Code: 200, Desc: "ok", Schema: &Schema{Ref: "Pet"}})
+		}
+		sp.Defs = []DefKV{{K: "Entity", V: entity}, {K: "Pet", V: pet}}
+		return sp
+	}
+	pet := func(withAllOf bool) *Schema {
+		p := &Schema{Type: []string{"object"}, Props: []KV{{K: "id", V: i64s()}, {K: "name", V: str()}}}
+		if withAllOf {
+			p.AllOf = []*Schema{{Ref: "Entity"}}
+		}
+		return p
+	}
+	ent := func(desc string, idType *Schema, extra bool) *Schema {
+		e := &Schema{Type: []string{"object"}, Desc: desc, Props: []KV{{K: "id", V: idType}}}
+		if extra {
+			e.Props = append(e.Props, KV{K: "rev", V: str()})
+		}
+		return e
+	}
+	var out []PairCase
+	for _, inBody := range []bool{false, true} {
+		w := "response"
+		if inBody {
+			w = "body"
+		}
+		out = append(out,
+			PairCase{"allOf-ref-one-side+desc:" + w, mk(pet(false), ent("", i64s(), false), inBody), mk(pet(true), ent("fields shared by every stored object", i64s(), false), inBody)},
+			PairCase{"allOf-ref-one-side+type:" + w, mk(pet(false), ent("", i64s(), false), inBody), mk(pet(true), ent("", str(), false), inBody)},
+			PairCase{"allOf-ref-one-side+prop:" + w, mk(pet(false), ent("", i64s(), false), inBody), mk(pet(true), ent("", i64s(), true), inBody)},
+			PairCase{"allOf-ref-both-sides+type:" + w, mk(pet(true), ent("", i64s(), false), inBody), mk(pet(true), ent("", str(), false), inBody)},
+		)
+	}
+	return out
+}
